@@ -546,7 +546,7 @@ Section Q.
     destruct (guard_verts m f gattr_boundary_vertices s) as [s1 r]. cbn [fst snd] in *. subst r.
     rewrite p_guard_verts_ok. cbn [bind]. split; [exact A|].
     destruct (ibv_loaded s1 A (C ltac:(discriminate))) as (r & ER & E1 & E2 & E3).
-    unfold rd. cbn [snd]. rewrite E2, ER. reflexivity.
+    unfold rd_list, gret_boundary_vertices, p_rd_vlist, rd. cbn [snd]. rewrite E2, ER. reflexivity.
   Qed.
   Lemma sim3_interior_vertices : sim3 (acc_interior_vertices m f) (p_interior_vertices m f).
   Proof.
@@ -555,7 +555,7 @@ Section Q.
     destruct (guard_verts m f gattr_interior_vertices s) as [s1 r]. cbn [fst snd] in *. subst r.
     rewrite p_guard_verts_ok. cbn [bind]. split; [exact A|].
     destruct (ibv_loaded s1 A (C ltac:(discriminate))) as (r & ER & E1 & E2 & E3).
-    unfold rd. cbn [snd]. rewrite E3, ER. reflexivity.
+    unfold rd_list, gret_interior_vertices, p_rd_vlist, rd. cbn [snd]. rewrite E3, ER. reflexivity.
   Qed.
   Lemma sim3_is_vertex_on_border u : sim3 (acc_is_vertex_on_border m f u) (p_is_vertex_on_border m f u).
   Proof.
